@@ -65,6 +65,8 @@ enum Step {
     /// whole frames (so the log can be longer than any scan chunk), then the file gets the body of
     /// a frame without its newline (torn 0) or the first part of one (torn 1), then the log and the
     /// store are reopened. Everything that was a whole frame before must still be an exact prefix.
+    /// torn 2: no torn write; the thread index file is lost instead, the authority restarted, a thread
+    /// looked up and ensure_default called: nothing may be added.
     TornRestart { noise_kb: u16, torn: u8 },
 }
 
@@ -120,7 +122,7 @@ fn case_strategy(max_len: usize) -> BoxedStrategy<Case> {
         proptest::collection::vec((any::<u16>(), read_strategy()), 0..max_len),
         proptest::collection::vec((any::<u16>(), fault::fault_strategy()), 0..4),
         // 1 case in 12 has a torn restart (the big noise makes those cases slower)
-        proptest::option::weighted(0.08, (any::<u16>(), prop_oneof![2 => Just(0u16), 2 => 1u16..60, 3 => 70u16..260], 0u8..2)),
+        proptest::option::weighted(0.12, (any::<u16>(), prop_oneof![2 => Just(0u16), 2 => 1u16..60, 3 => 70u16..260], 0u8..3)),
     )
         .prop_map(|(ops, reads, faults, torn)| {
             // interleave: each read / fault is inserted after position pick(pos, len)
@@ -278,6 +280,25 @@ fn run(case: &Case) -> CaseReport {
                 let n = check_delta(&before, &after, expect, &what, i, &mut rep);
                 if matches!(op, Op::ManualCheckpoint { .. } | Op::Auto { .. } | Op::Schedule { .. }) && n > 0 {
                     checkpoints += 1;
+                }
+                versions.record(&it.sandbox.streams_dir());
+            }
+            Step::TornRestart { torn: 2, .. } => {
+                // the thread index (a cache of continuity_created frames) is lost, the authority
+                // restarted, one existing thread looked up (which rebuilds that entry alone); with a
+                // thread of this workspace in the truth log, ensure_default is a no-op: it adds nothing
+                let _ = std::fs::remove_file(it.sandbox.data.join("continuities").join("index.json"));
+                it.restart();
+                let has_thread = it.sandbox.truth_values().map(|v| v.iter().any(|f| f["type"] == "continuity_created")).unwrap_or(false);
+                let tid = it.thread_id(0);
+                let _ = catch(|| it.live.store.get(&tid));
+                let mid = it.sandbox.log_bytes();
+                check_delta(&before, &mid, Expect::Nothing, "index_loss_restart_and_lookup", i, &mut rep);
+                if has_thread {
+                    let _ = catch(|| it.apply(&Op::Ensure));
+                    let after = it.sandbox.log_bytes();
+                    check_delta(&mid, &after, Expect::Nothing, "ensure_default_after_index_loss", i, &mut rep);
+                    rep.class("index_lost_then_lookup_then_ensure_default");
                 }
                 versions.record(&it.sandbox.streams_dir());
             }
